@@ -60,8 +60,11 @@ EnvFault == /\ st.ph = "sent" /\ FaultDue
 CSense == /\ st.ph = "idle" /\ st.pos >= 1 /\ st.gave = 0 /\ extra = 0
           /\ \E res \in BOOLEAN : st' = DoSense(st, P, res)
           /\ extra' = 3 /\ UNCHANGED left /\ Keep
+EnvBadMac == /\ st.ph = "sent" /\ ~FaultDue /\ P.proto = "T3" /\ st.gave = 0 /\ extra = 0
+             /\ st' = DoAnswer(st, P, "badmac", TRUE)
+             /\ extra' = 4 /\ UNCHANGED left /\ Keep
 Rets == IF st.gave = 0 THEN {P.cleanRet}
-        ELSE {[kind |-> "tagerr", errno |-> IF st.lastGive = "gone" THEN 0 ELSE ErrnoOf(st.lastGive), val |-> "-"]}
+        ELSE {[kind |-> "tagerr", errno |-> IF st.lastGive \in {"gone", "mac"} THEN 0 ELSE ErrnoOf(st.lastGive), val |-> "-"]}
              \cup {[kind |-> "ok", errno |-> 0, val |-> v] : v \in P.doc \ {"any"}}
              \cup (IF "any" \in P.doc THEN {[kind |-> "ok", errno |-> 0, val |-> "partial"]} ELSE {})
 CRet == /\ st.ph = "idle" /\ (st.gave > 0 \/ st.pos = N)
@@ -74,13 +77,13 @@ BResend == st.ph = "idle" /\ st.pos >= 1 /\ ~st.dirty /\ st' = DoSend(st, P, st.
 BOver == st.ph = "faulted" /\ st' = [DoSend(st, P, st.cur, st.cc, st.tgt) EXCEPT !.att = 4]     \* a fourth attempt
 BNoRetry == st.ph = "faulted" /\ st' = DoRet([st EXCEPT !.gave = 1, !.lastGive = sc.k], P, [kind |-> "tagerr", errno |-> ErrnoOf(sc.k), val |-> "-"], st.tgt)
 BRaw == st.ph = "idle" /\ st.gave > 0 /\ st' = DoRet(st, P, [kind |-> "raw", errno |-> 0, val |-> "TimeoutError"], st.tgt)
-BWrongErrno == st.ph = "idle" /\ st.gave > 0 /\ st.lastGive # "gone" /\ st' = DoRet(st, P, [kind |-> "tagerr", errno |-> ErrnoOf(st.lastGive) - 1, val |-> "-"], st.tgt)
+BWrongErrno == st.ph = "idle" /\ st.gave > 0 /\ st.lastGive \notin {"gone", "mac"} /\ st' = DoRet(st, P, [kind |-> "tagerr", errno |-> ErrnoOf(st.lastGive) - 1, val |-> "-"], st.tgt)
 BSwallow == st.ph = "idle" /\ st.gave > 0 /\ P.doc = {} /\ st' = DoRet(st, P, P.cleanRet, st.tgt)
 BStale == st.ph = "idle" /\ ~st.tgt /\ st' = DoRet(st, P, [kind |-> "ok", errno |-> 0, val |-> "False"], TRUE)
 BTwice == st.ph = "idle" /\ st.pos >= 1 /\ st.ex = 1 /\ st' = VIf([st EXCEPT !.ex = 2], 2 > 1 + st.fAfter, "executed-twice")
 Bug == Buggy /\ (BResend \/ BOver \/ BNoRetry \/ BRaw \/ BWrongErrno \/ BSwallow \/ BTwice \/ BStale) /\ UNCHANGED <<left, extra>> /\ Keep
 
-Next == CSend \/ CRetry \/ CReack \/ CDirty \/ EnvAnswer \/ EnvFault \/ EnvWtx \/ CWtx \/ CSense \/ CRet \/ Done \/ Bug
+Next == CSend \/ CRetry \/ CReack \/ CDirty \/ EnvAnswer \/ EnvFault \/ EnvWtx \/ CWtx \/ CSense \/ EnvBadMac \/ CRet \/ Done \/ Bug
 Spec == Init /\ [][Next]_vars /\ WF_vars(Next)
 
 Bounded == BoundedP(st, P)
@@ -92,10 +95,10 @@ TargetFollowsSense == TargetFollowsSenseP(st)
 NoViol == st.viol = {}
 Terminates == <>(st.ph = "done")
 \* a burst shorter than the budget is absorbed: the clean result is returned
-Absorbed == (st.ph = "done" /\ st.tgt /\ sc.b < Budget(P.proto, CcOf(sc.p), P.nRetry) /\ ~(P.proto = "T4")) => st.ret = P.cleanRet
+Absorbed == (st.ph = "done" /\ st.tgt /\ st.lastGive # "mac" /\ sc.b < Budget(P.proto, CcOf(sc.p), P.nRetry) /\ ~(P.proto = "T4")) => st.ret = P.cleanRet
 \* a burst that exhausts the budget ends with the matching TagCommandError or the documented value
 GaveUpOutcome == (st.ph = "done" /\ st.gave > 0) =>
-                    \/ st.ret.kind = "tagerr" /\ (IF st.lastGive = "gone" THEN st.ret.errno = 0 ELSE st.ret.errno = ErrnoOf(sc.k))
+                    \/ st.ret.kind = "tagerr" /\ (IF st.lastGive \in {"gone", "mac"} THEN st.ret.errno = 0 ELSE st.ret.errno = ErrnoOf(sc.k))
                     \/ st.ret.kind = "ok" /\ (st.ret.val \in P.doc \/ "any" \in P.doc)
 
 \* witnesses (must be violated)
@@ -104,6 +107,7 @@ W_Doc == ~(st.ph = "done" /\ st.gave > 0 /\ st.ret.kind = "ok")
 W_AbsorbAfter == ~(st.ph = "done" /\ st.gave = 0 /\ st.fAfter >= 2)
 W_Rack == ~(st.ph = "reack")
 W_WtxFault == ~(P.proto = "T4" /\ extra = 2 /\ st.ph = "faulted")
+W_BadMac == ~(st.ph = "done" /\ st.lastGive = "mac")
 W_Gone == ~(st.ph = "done" /\ ~st.tgt /\ st.ret.kind = "ok")
 W_Passive == ~(P.proto = "T2" /\ st.cc = "ssel2" /\ st.ph = "idle" /\ st.gave = 0 /\ sc.p = 2 /\ sc.k = "timeout" /\ left < sc.b)
 =============================================================================
